@@ -180,7 +180,7 @@ class Terms:
                         r = rets[0]
                         while r[0] in ("ref", "deref"):
                             r = r[1]
-                        if r[0] in ("str", "bytes", "const", "mem", "aggr"):
+                        if r[0] in ("str", "bytes", "const", "mem", "aggr", "cdef", "static"):
                             return ("ref", r)
             if "mem" in o and o["mem"] is not None:
                 return ("mem", tuple(o["mem"]), pp.ty(o["ty"]))
